@@ -1,6 +1,7 @@
 """Rules on reflector code shared by several properties (StorageReflectSession.cpp, ReflectServer.cpp, PathMatcher.cpp are anchored by C04, C05, C06, C07)."""
 import re
 from msa import ast as A
+from msa import guards as G
 from msa import cfg as C
 from msa import pair as P
 from msa.taint import P_canon
@@ -139,3 +140,88 @@ def lameduck_same_end_rule(res, fx, rule):
     res.ob(rule, f.where(), 'processed end and removed end agree', ok, how=str(sorted(heads)), function=f.q, key='%s|%s|same-end' % (rule, f.q),
            message='ClearLameDucks processes one end of _lameDuckSessions (%s) and removes the other (%s): when two sessions end in the same pass one of them is dropped without '
                    'AboutToDetachFromServer(); its subtree and subscription marks stay forever' % (sorted(first), sorted(last)))
+
+
+def cow_exact_rule(res, fx, rule):
+    """copy-on-write of the shared subscriber tables: modify in place only when the caller and the cache are the ONLY holders"""
+    gs = [g for g in fx.funcs.values() if g.full and g.q.endswith('ImmutableHashtablePool::GetRefStatus')]
+    if not gs:
+        raise AnalysisBroken('%s: ImmutableHashtablePool::GetRefStatus not found (instantiation for the subscriber tables)' % rule)
+    g = gs[0]
+    rets = [r for r in g.walk() if r['k'] == 'ReturnStmt' and r['ch'] and any(x.get('n') == 'REF_STATUS_INLRUCACHE' for x in r['ch'][0].walk())]
+    ok, how = bool(rets), None
+    for r in rets:
+        okr = False
+        # a `c ? INLRUCACHE : PUBLIC` return is judged at the arm that names the status
+        sites = [x for x in r['ch'][0].walk() if x.get('n') == 'REF_STATUS_INLRUCACHE']
+        for site in sites:
+            for (cn, t) in G.atoms_at(g, site):
+                for (l_, op_, r_) in A.rel_forms(cn, t):
+                    if op_ == '==' and r_.get('v') == 2 and any(x.is_call() and (x.get('q') or '').endswith('::GetRefCount') for x in l_.walk()):
+                        okr, how = True, A.strip_casts(cn).text(40)
+        ok = ok and okr
+    res.ob(rule, g.where(), 'a shared subscriber table is classified "only the caller and the cache hold it" (so it may be modified in place) only under GetRefCount() == 2', ok, how=how, function=g.q,
+           key='%s|%s|cow-exact' % (rule, g.q.split('<')[0]),
+           message='ImmutableHashtablePool::GetRefStatus reports REF_STATUS_INLRUCACHE without an exact GetRefCount() == 2 test: a table that other DataNodes still share is modified in place, so one '
+                   'session\'s subscription mark appears on (or disappears from) nodes it never subscribed to, and can outlive the session')
+
+
+def cache_hit_compares_content_rule(res, fx, rule):
+    """the LRU cache of subscriber tables is keyed by a 64-bit sum of hash codes: a hit under that key is only a candidate; it may be handed out only after its CONTENT was compared"""
+    gs = [g for g in fx.funcs.values() if g.full and g.q.endswith('ImmutableHashtablePool::GetWithAux')]
+    if not gs:
+        raise AnalysisBroken('%s: ImmutableHashtablePool::GetWithAux not found' % rule)
+    g = gs[0]
+    gets = [c for c in g.walk() if c['k'] == 'CXXMemberCallExpr' and re.search(r'::(Get|GetAndMoveToFront)$', c.get('q') or '') and c.receiver() is not None and A.strip_casts(c.receiver()).get('n') == '_lruCache']
+    if not gets:
+        raise AnalysisBroken('%s: no _lruCache lookup in GetWithAux' % rule)
+    cmpc = [c for c in g.walk() if c.is_call() and re.search(r'::(WouldBeEqualToAfterPutOrRemove|IsEqualTo|operator==)$', c.get('q') or '') and 'Hashtable' in (c.get('q') or '')]
+    # every return that hands out a value derived from the cache lookup is dominated by a successful content comparison
+    holders = set()
+    for v in g.walk():
+        if v['k'] == 'VarDecl' and v['ch'] and any(x in gets for x in v['ch'][0].walk()):
+            holders.add(v['d'])
+    bad = None
+    for r in (x for x in g.walk() if x['k'] == 'ReturnStmt' and x['ch']):
+        if not any(x['k'] == 'DeclRefExpr' and x.get('d') in holders for x in A.walk_through_locals(g, r['ch'][0])):
+            continue
+        okc = any(a.is_call() and a in cmpc and t for (a, t) in G.atoms_at(g, r)) or any(any(x in cmpc for x in a.walk()) and t for (a, t) in G.atoms_at(g, r))
+        if not okc:
+            bad = r
+    res.ob(rule, g.where(bad) if bad is not None else g.where(), 'GetWithAux hands out a table found in the LRU cache only after comparing its contents with the table wanted', bad is None and bool(cmpc), function=g.q,
+           key='%s|%s|cache-hit-compares-content' % (rule, g.q.split('<')[0]),
+           message='ImmutableHashtablePool::GetWithAux returns the table cached under the same 64-bit hash sum without comparing contents: two different subscriber sets whose sums collide '
+                   '(e.g. {35,272} and {23,368} with the stock hash) are confused, so a node gets another node\'s subscribers — updates go to sessions that never subscribed and not to those that did')
+
+
+def same_key_rule(res, fx, rule):
+    """the per-depth entries table is selected with the depth of the very string that is then looked up in it"""
+    n_key = 0
+    for f in sorted((f for f in fx.funcs.values() if f.full and (f.cls or '') == SRS), key=lambda f: f.line):
+        for c in f.walk():
+            if c['k'] != 'CXXMemberCallExpr' or (c.get('q') or '').split('::')[-1] not in ('Get', 'ContainsKey', 'GetOrPut', 'Put', 'Remove') or not c.args() or c.receiver() is None:
+                continue
+            sub = [x for x in c.receiver().walk() if x['k'] in ('ArraySubscriptExpr', 'CXXOperatorCallExpr') and any((y.get('q') or '').endswith('PathMatcher::GetEntries') for y in x.walk() if y.is_call())]
+            if not sub:
+                continue
+            idx = sub[0]['ch'][-1]
+            keyvars = set(x['d'] for x in c.args()[0].walk() if x['k'] == 'DeclRefExpr' and 'd' in x)
+            # the index expression, through one local, must be GetPathDepth(<expr over the same variable>)
+            e = A.strip_casts(idx)
+            if e['k'] == 'DeclRefExpr' and 'd' in e:
+                dd = e['d']
+                for v in f.walk():
+                    if v['k'] == 'VarDecl' and v.get('d') == dd and v['ch']:
+                        e = A.strip_casts(v['ch'][0])
+            gpd = [y for y in e.walk() if y.is_call() and (y.get('q') or '') == 'muscle::GetPathDepth']
+            if not gpd:
+                continue
+            n_key += 1
+            dvars = set(x['d'] for x in gpd[0].walk() if x['k'] == 'DeclRefExpr' and 'd' in x)
+            okk = bool(keyvars & dvars)
+            res.ob(rule, f.where(c), 'lookup of `%s` in GetEntries()[depth] uses the depth of the same string' % c.args()[0].text(30), okk, how='depth = %s' % gpd[0].text(50), function=f.q,
+                   key='%s|%s|same-key' % (rule, f.q),
+                   message='%s looks `%s` up in the entries table for depth %s: a different string, so an existing subscription is not found and is registered a second time '
+                           '(no filter diff is sent, the marks are counted twice)' % (f.q, c.args()[0].text(30), gpd[0].text(50)))
+    if n_key < 1:
+        raise AnalysisBroken(rule + ': the existing-subscription lookup (GetEntries()[GetPathDepth(p)].Get(p)) was not found')
